@@ -341,6 +341,16 @@ m("nh-time-guard", "numeric.helpers", B+"common/time.go", "if slot >= Slot(max) 
 m("nh-epoch-guard", "numeric.helpers", B+"common/time.go", "if e != spec.SlotToEpoch(out) {", "if e > spec.SlotToEpoch(out) {", "EpochStartSlot.overflow-guard")
 m("nh-span-guard", "numeric.helpers", "eth2/gossipval/common.go", "if slot+span < slot {", "if slot+span < span {", "CheckSlotSpan.overflow-guard")
 
+
+m("cr-progress", "cache.recursion", B+"common/validator_pubkeys.go", "trustedParentCount: existingIndex,", "trustedParentCount: index,", "AddValidator.recurse")
+m("cr-progress2", "cache.recursion", B+"common/validator_pubkeys.go", "trustedParentCount: index,", "trustedParentCount: existingIndex,", "AddValidator.recurse#3", nth=2)
+m("df-block", "dirty.flag", F+"proto/proto_array.go", "\tpr.updatedConnections = false\n\treturn true\n}", "\treturn true\n}", "ProcessBlock@append")
+m("df-slot", "dirty.flag", F+"proto/proto_array.go", "\tpr.updatedConnections = false\n}\n", "}\n", "ProcessSlot@append")
+
+
+m("eq-reset-zero", "exitqueue.reset", B+"phase0/voluntary_exit.go", "\t\t\texitQueueEnd = valExit\n\t\t\texitQueueEndChurn = 1\n", "\t\t\texitQueueEnd = valExit\n\t\t\texitQueueEndChurn = 0\n", "InitiateValidatorExit:exitQueueEnd")
+m("eq-reset-one", "exitqueue.reset", B+"phase0/registry.go", "\t\t\texitQueueEnd = exit\n\t\t\texitQueueEndChurn = 0\n", "\t\t\texitQueueEnd = exit\n\t\t\texitQueueEndChurn = 1\n", "ComputeRegistryProcessData:exitQueueEnd")
+
 # lazy.init / lock.atomic positive cases are today's known findings (no mutant needed: they are violations on the tree)
 
 M = [x for x in M if not x["expect"].startswith("XX")]
